@@ -94,10 +94,17 @@ def run(ck):
                                            count_traces=lambda ev: sum(1 for e in ev if e["ev"] in RESETS))
             except Inconclusive as e:
                 return e
-        for v in pool.map(val, pieces):
+        windows = collections.Counter()
+        for piece, v in zip(pieces, pool.map(val, pieces)):
             if isinstance(v, Inconclusive):
                 problems.append(v)
-        vacuity(ck, {k: vlib.read_ndjson(tr[k]) for k in tr}, s, first)
+            else:
+                windows[piece[1].split("-")[0]] += v[0].out.count('"VERIF_WINDOW"')
+        ck.cov.setdefault("settle_windows_judged", {})["seed%d" % s] = dict(windows)
+        if not problems and not ck.violations and (not windows["pred"] or not windows["run"]):
+            raise Inconclusive("vacuous: no settle window was judged on the real predictor / run loop outputs: %s" % dict(windows))
+        if not ck.violations:
+            vacuity(ck, {k: vlib.read_ndjson(tr[k]) for k in tr}, s, first)
     if problems and not ck.violations:
         raise problems[0]
     ck.cov["distinct_nontrivial"] = ck.cov["traces_validated_against_impl"]
